@@ -237,6 +237,11 @@ void async_queue_clear(async_queue_t* queue) {
     queue->head = 0;
     queue->tail = 0;
     queue->count = 0;
+    /* every slot is free again: writers blocked on a full queue (ASYNC_QUEUE_BLOCK_WRITER)
+     * are woken by a dequeue only, and an empty queue has nothing to dequeue */
+    if (queue->flags & ASYNC_QUEUE_BLOCK_WRITER) {
+        platform_event_set(&queue->not_full);
+    }
     platform_mutex_unlock(&queue->mutex);
 }
 
